@@ -25,14 +25,19 @@
 (*   6 members without a claimed node become inactive [inactive history]   *)
 (*   7 funds of the new term                          [appropriation hist.]*)
 (*                                                                         *)
-(* C22: RollbackTo(t) gives the state after block t (hist[t]).             *)
+(* C22: a rollback to t -- as the chain does it: checkpoint.Manager           *)
+(*      .OnRollbackTo -> cr Checkpoint.OnRollbackTo, which resets the      *)
+(*      committee below CRVotingStartHeight and calls Committee.RollbackTo *)
+(*      from there on -- gives the state after block t (hist[t]).          *)
 (* C23: CheckpointRestore (checkpoint, restore from it) is the identity.   *)
+(* C28 (CR side): CRDepositBalance holds in every reachable state.         *)
 (* C29: the invariants of Proposal.tla hold in every reachable state.      *)
 (***************************************************************************)
 EXTENDS Proposal, Json
 
 CONSTANTS MemberCount, VotingPeriod, ClaimPeriod, DutyPeriod, Lockup, ActivateDuration,
           VotingStart,      \* CRVotingStartHeight
+          WithdrawV1Height, \* CRCProposalWithdrawPayloadV1Height: withdrawals below it carry payload version 0
           CommitteeStart,   \* CRCommitteeStartHeight
           MaxSession,
           BudgetChoices,    \* budget triples <<imprest, normal, final>> a proposal may ask for
@@ -79,7 +84,8 @@ Genesis ==
    prop |-> [p \in Props |-> EmptyProp],
    pend |-> {}, wid |-> 0,
    paid |-> [p \in Props |-> 0],
-   cover |-> [p \in Props |-> [i \in Stages |-> 0]]]
+   cover |-> [p \in Props |-> [i \in Stages |-> 0]],
+   over |-> [c \in CRs |-> 0]]                     \* deposits released twice by the named deviation ReleasedTwice
 
 ---------------------------------------------------------------------------
 (* Periods (Committee.isInVotingPeriod / isInClaimPeriod / IsProposalAllowed) *)
@@ -95,6 +101,13 @@ InClaim(st, h) == h >= st.lvsh + VotingPeriod /\ h <= st.lvsh + VotingPeriod + C
 ProposalAllowed(st, h) == st.inElect /\ ~InVoting(st, h) /\ ~InClaim(st, h)
 
 OnDuty(st) == {"Elected", "Inactive", "Illegal"}
+
+\* State.getAvailableDepositAmount: what a ReturnCRDepositCoin may take
+Available(st, c) == st.dep[c].total - st.dep[c].locked - st.dep[c].pen
+
+\* the payload version of a withdrawal is fixed by the height of its block
+\* (HeightVersionCheck of CRCProposalWithdraw)
+Legacy(h) == h < WithdrawV1Height
 
 ---------------------------------------------------------------------------
 (* Admission of one transaction against the pre-block state s0 (the        *)
@@ -123,8 +136,9 @@ Accepts(s0, h, tx, inBlock) ==
                                   THEN /\ s0.prop[tx.p].st = "VoterAgreed" /\ s0.prop[tx.p].kind = "normal"
                                        /\ s0.prop[tx.p].tcount < MaxTracking
                                        /\ s0.prop[tx.p].owner = tx.o /\ tx.o2 # tx.o
-                                  ELSE TrackingOK(s0, tx.p, tx.o, tx.x, tx.n)
-      [] tx.k = "Withdraw"     -> WithdrawOK(s0, tx.p, tx.o, tx.n)
+                                  ELSE TrackingOK(s0, tx.p, tx.o, tx.x, tx.n, Legacy(h))
+      \* (a version 0 withdrawal spends outputs of the expenses address: they must be there)
+      [] tx.k = "Withdraw"     -> WithdrawOK(s0, tx.p, tx.o, tx.n) /\ (Legacy(h) => tx.n <= s0.cbal)
       [] tx.k = "RealWithdraw" -> s0.pend # {} /\ SumSet([o \in s0.pend |-> o.amt], s0.pend) <= s0.cbal
       [] tx.k = "Approp"       -> s0.needApp /\ s0.approp > 0 /\ s0.approp <= s0.fbal
       [] tx.k = "Claim"        -> IF tx.x = "next"
@@ -133,7 +147,7 @@ Accepts(s0, h, tx, inBlock) ==
       \* ReturnCRDepositCoin: the signer has deposit that is no longer locked
       \* (the whole available amount is returned; a penalty counts when it takes a whole deposit)
       [] tx.k = "ReturnDeposit" -> /\ s0.dep[tx.c].known /\ s0.dep[tx.c].locked >= 0
-                                   /\ s0.dep[tx.c].total > s0.dep[tx.c].locked + s0.dep[tx.c].pen
+                                   /\ Available(s0, tx.c) > 0
       [] tx.k = "Fund"         -> TRUE
       [] OTHER -> FALSE
 
@@ -195,7 +209,7 @@ ApplyTx(s0, st, h, tx) ==
       [] tx.k = "Close"    -> RegisterProposal(s0, st, h, tx.p, "close", tx.t, tx.c, tx.o, ZeroBud)
       [] tx.k = "Review"   -> Review(st, tx.p, tx.c, tx.x)
       [] tx.k = "Tracking" -> Tracking(s0, st, h, tx.p, tx.x, tx.n, tx.o2)
-      [] tx.k = "Withdraw" -> Withdraw(s0, st, tx.p, tx.n)
+      [] tx.k = "Withdraw" -> IF Legacy(h) THEN Withdraw0(s0, st, tx.p, tx.n) ELSE Withdraw(s0, st, tx.p, tx.n)
       [] tx.k = "RealWithdraw" -> RealWithdraw(s0, st)
       [] tx.k = "Approp" ->
            [st EXCEPT !.needApp = FALSE, !.fbal = @ - s0.approp, !.cbal = @ + s0.approp]
@@ -205,7 +219,7 @@ ApplyTx(s0, st, h, tx) ==
            ELSE [st EXCEPT !.mem[tx.c].key = TRUE,
                            !.mem[tx.c].st = IF @ = "Inactive" THEN "Elected" ELSE @]
       [] tx.k = "ReturnDeposit" ->
-           [st EXCEPT !.dep[tx.c].total = @ - (s0.dep[tx.c].total - s0.dep[tx.c].locked - s0.dep[tx.c].pen),
+           [st EXCEPT !.dep[tx.c].total = @ - Available(s0, tx.c),
                       !.cand[tx.c].st =
                           IF s0.cand[tx.c].st = "Canceled" /\ h - s0.cand[tx.c].cancelH > Lockup
                           THEN "Returned" ELSE @,
@@ -325,6 +339,13 @@ CommitteePhase(s1, sp, h) ==
                                 !.session = @ + 1, !.inElect = TRUE, !.lch = h,
                                 !.used = OutstandingAll(sp), !.needApp = TRUE]
         changed == change /\ hasNext
+        \* Named deviation (a defect of the code, kept in the model because the model follows
+        \* the code; on the real committee it is reported as
+        \* C28:cr-deposit-negative:released-twice-at-committee-change): a member that is impeached or
+        \* terminated by (2) in the very block in which the committee changes is still on duty in
+        \* the state processCurrentMembersDepositInfo reads (the closures of (2) have not run
+        \* yet), so its deposit is released by both: depOut above subtracts a second time.
+        releasedTwice == IF change /\ s1.inElect THEN newImp \cup termd ELSE {}
         \* (6) members that have not claimed a node
         inactCheck == ~(h < c4b.lvsh + VotingPeriod + ClaimPeriod)
         \* updateInactiveCountPenalty: a block spent inactive counts against the member
@@ -336,8 +357,11 @@ CommitteePhase(s1, sp, h) ==
               ELSE c5
         \* (7) funds of the new term
         ap == (c6.fbal * 10) \div 100
-    IN IF changed THEN [c6 EXCEPT !.usedSnap = c6.used, !.approp = ap, !.stage = c6.cbal + ap]
-       ELSE c6
+        c7 == [c6 EXCEPT !.over = [m \in CRs |-> IF m \in releasedTwice THEN @[m] + 1 ELSE @[m]]]
+       \* createAppropriationTransaction: with nothing on the CR assets address there is no appropriation
+       \* to make and NeedAppropriation (set by the committee history a moment ago) is dropped again
+    IN IF changed THEN [c7 EXCEPT !.usedSnap = c7.used, !.approp = ap, !.stage = c7.cbal + ap, !.needApp = c7.fbal > 0]
+       ELSE c7
 
 ElectionAlive(s1) ==
     LET onDuty  == {m \in CRs : s1.mem[m].st \in OnDuty(s1)}
@@ -360,9 +384,12 @@ AllOnes == [c \in CRs |-> 1]
 
 CRSeq == CHOOSE q \in [1..Cardinality(CRs) -> CRs] : \A i, j \in 1..Cardinality(CRs) : i < j => q[i] < q[j]
 ForAllCRs(k, x) == [i \in 1..Cardinality(CRs) |-> [BaseTx EXCEPT !.k = k, !.c = CRSeq[i], !.x = x]]
+\* the CRs a vote of one unit for everybody elects (ties are broken by the order of the identities)
+ForElected(k, x) == [i \in 1..MemberCount |-> [BaseTx EXCEPT !.k = k, !.c = CRSeq[i], !.x = x]]
 AVoter == CHOOSE v \in Voters : \A w \in Voters : v <= w
 AnOwner == CHOOSE o \in Owners : \A w \in Owners : o <= w
 P1 == CHOOSE p \in Props : \A q \in Props : p <= q
+P2 == CHOOSE p \in Props \ {P1} : \A q \in Props \ {P1} : p <= q
 C1 == CRSeq[1]
 C2 == CRSeq[2]
 
@@ -373,7 +400,7 @@ Empty(n) == [i \in 1..n |-> <<>>]
 \* funds appropriated at 10
 FirstTerm ==
     <<ForAllCRs("RegisterCR", ""), <<[T("Fund") EXCEPT !.n = 800]>>>> \o Empty(4)
-    \o << <<[T("VoteCR") EXCEPT !.v = AVoter, !.pat = AllOnes]>>, <<>>, ForAllCRs("Claim", "next"), <<T("Approp")>> >>
+    \o << <<[T("VoteCR") EXCEPT !.v = AVoter, !.pat = AllOnes]>>, <<>>, ForElected("Claim", "next"), <<T("Approp")>> >>
 
 \* a proposal of the first term taken to VoterAgreed (blocks 11-13)
 OneProposal ==
@@ -381,9 +408,32 @@ OneProposal ==
        <<[T("Review") EXCEPT !.p = P1, !.c = C1, !.x = "approve"], [T("Review") EXCEPT !.p = P1, !.c = C2, !.x = "approve"]>>,
        <<>> >>
 
+\* the end of the first term with the second election decided (blocks 11-22): two
+\* proposals registered at 11 and 13, the first approved by two members, the second
+\* by one; everybody registers again at 16, is active at 21 and gets one vote at 22.
+\* What the proposals are then depends on the proposal voting periods: with long
+\* ones the review / public vote ends in the blocks around the end of the voting
+\* period (24) and the committee change (25).  "handover" starts at 23 (the next
+\* two blocks end the voting period and change the committee), "handover21" at 21
+\* (the votes are still to be cast).
+Handover ==
+    << <<[T("Proposal") EXCEPT !.p = P1, !.c = C1, !.o = AnOwner, !.bud = <<1, 2, 5>>]>>,
+       <<[T("Review") EXCEPT !.p = P1, !.c = C1, !.x = "approve"], [T("Review") EXCEPT !.p = P1, !.c = C2, !.x = "approve"]>>,
+       <<[T("Proposal") EXCEPT !.p = P2, !.c = C1, !.o = AnOwner, !.bud = <<2, 1, 1>>]>>,
+       <<[T("Review") EXCEPT !.p = P2, !.c = C1, !.x = "approve"]>>,
+       <<>>,
+       ForAllCRs("RegisterCR", "") >>
+    \o Empty(5)
+    \o << <<[T("VoteCR") EXCEPT !.v = AVoter, !.pat = AllOnes]>> >>
+
 Preamble ==
     CASE Scenario = "fresh"    -> <<>>
       [] Scenario = "voting"   -> <<ForAllCRs("RegisterCR", ""), <<[T("Fund") EXCEPT !.n = 800]>>>> \o Empty(3)
+      [] Scenario = "voting4"  -> <<ForAllCRs("RegisterCR", ""), <<[T("Fund") EXCEPT !.n = 800]>>>> \o Empty(2)
+      [] Scenario = "unfunded" -> <<ForAllCRs("RegisterCR", "")>> \o Empty(4)     \* nothing on the CR assets address
+      [] Scenario = "handover" -> FirstTerm \o Handover \o Empty(1)
+      [] Scenario = "handover21" -> FirstTerm \o SubSeq(Handover, 1, Len(Handover) - 1)
+      [] Scenario = "seated"   -> SubSeq(FirstTerm, 1, Len(FirstTerm) - 1)   \* the committee has just changed (9): appropriation pending
       [] Scenario = "duty"     -> FirstTerm
       [] Scenario = "agreed"   -> FirstTerm \o OneProposal
       [] Scenario = "election" -> \* second voting period (16..23): candidates registered at 16, now 20
@@ -473,7 +523,8 @@ Verdicts(st) ==
      room  |-> IF ProposalAllowed(st, st.h) THEN ProposalRoom(st, 0) ELSE 0]
 
 \* the state as logged: positional, spec-only bookkeeping (nickname counter,
-\* order numbers, the paid / cover ledgers, deposit totals) left out
+\* order numbers, the paid / cover ledgers, deposit totals, the deviation counter `over`) left out;
+\* kd = the CRs whose deposit the named deviation ReleasedTwice has released a second time
 Compact(st) ==
     [h |-> st.h,
      cand |-> [c \in CRs |-> <<st.cand[c].st, st.cand[c].votes, st.cand[c].regH, st.cand[c].cancelH, st.cand[c].nick>>],
@@ -491,9 +542,11 @@ Compact(st) ==
      pend |-> {<<o.n, o.p, o.amt>> : o \in st.pend}]
 
 LogStep(act, args) ==
-    log' = Append(log, [act |-> act, args |-> args, st |-> Compact(s'), vd |-> Verdicts(s')])
+    log' = Append(log, [act |-> act, args |-> args, st |-> Compact(s'), vd |-> Verdicts(s'),
+                        kd |-> {c \in CRs : s'.over[c] > 0}])
 
-StartLog(st) == <<[act |-> "Start", args |-> [scenario |-> Scenario], st |-> Compact(st), vd |-> Verdicts(st)]>>
+StartLog(st) == <<[act |-> "Start", args |-> [scenario |-> Scenario], st |-> Compact(st), vd |-> Verdicts(st),
+                   kd |-> {c \in CRs : st.over[c] > 0}]>>
 
 \* The start state is reached by processing the blocks of Preamble from Genesis,
 \* one step each (not part of the logged behaviour; the blocks are printed once
@@ -526,11 +579,18 @@ Block(txs) ==
     /\ LogStep("Block", [h |-> s.h + 1, txs |-> txs,
                          ok |-> [i \in 1..Len(txs) |-> RuleAllows(txs, i)]])
 
-\* Committee.RollbackTo(t): the state after block t
+\* A rollback to height t the way the chain does it (checkpoint.Manager.OnRollbackTo
+\* -> cr Checkpoint.OnRollbackTo): the state after block t.  Below VotingStart the
+\* checkpoint resets the committee to its initial state, which is the state after
+\* every block below VotingStart (ProcessBlock ignores them); from VotingStart on it
+\* is Committee.RollbackTo.  t = VotingStart - 1 and t = VotingStart are the two
+\* sides of that bound.  (Committee.RollbackTo(0) itself does not terminate:
+\* uint32 loop bound; the node never calls it.)
+RollbackFloor == IF VotingStart > 0 THEN VotingStart - 1 ELSE 0
 Rollback(i) ==
     /\ pc = 0 /\ nsteps < MaxSteps /\ nrolls < MaxRollbacks
     /\ i \in 1..(Len(hist) - 1)
-    /\ hist[i][1] >= VotingStart      \* the committee does not exist below (RollbackTo(0) does not terminate)
+    /\ hist[i][1] >= RollbackFloor
     /\ s' = hist[i][2]
     /\ hist' = SubSeq(hist, 1, i)
     /\ nsteps' = nsteps + 1 /\ nrolls' = nrolls + 1 /\ UNCHANGED pc
@@ -560,7 +620,7 @@ Spec == Init /\ [][Next]_vars
 \* generator (a rollback about every sixth step).
 SimNext ==
     IF pc > 0 THEN PreStep ELSE
-    LET rb == {i \in 1..(Len(hist) - 1) : hist[i][1] >= VotingStart} IN
+    LET rb == {i \in 1..(Len(hist) - 1) : hist[i][1] >= RollbackFloor} IN
       IF rb # {} /\ nrolls < MaxRollbacks /\ RandomElement(1..6) = 1
       THEN Rollback(RandomElement(rb))
       ELSE IF "Checkpoint" \in Kinds /\ RandomElement(1..8) = 1 THEN CheckpointRestore
@@ -589,9 +649,26 @@ C29PaidWithinApproved == PaidWithinApproved(s)
 C29StagePaidOnce == StagePaidOnce(s)
 C29WithdrawnWasWithdrawable == WithdrawnWasWithdrawable(s)
 C29CommittedWithinAvailable == CommittedWithinAvailable(s)
+C29PayableWithinWithdrawn == PayableWithinWithdrawn(s)
 
-\* (deposit accounting is the subject of another property; the locked amount
-\* of the model follows the code, see DepositSane)
+\* C28, CR side: deposits are never overdrawn.  Per CID the committee keeps the
+\* deposit address total, the part of it that is locked (one MinDepositAmount per
+\* live candidacy / membership) and the penalty; what ReturnCRDepositCoin may
+\* take is Available = total - locked - penalty.  The balance invariant: no part is
+\* negative and Available never exceeds what is on the address beyond the locked
+\* amount and the penalty (a locked amount that is released twice goes negative
+\* and inflates Available by a whole deposit).  The model follows the code in
+\* how `locked` moves; the invariant is evaluated on the real committee after
+\* every block (keys C28:cr-...), and by TLC on the model.
+CRDepositBalance(st) ==
+    \A c \in CRs : /\ st.dep[c].locked >= 0 /\ st.dep[c].pen >= 0 /\ st.dep[c].total >= 0
+                   /\ Available(st, c) <= st.dep[c].total
+                   /\ (~st.dep[c].known => st.dep[c].total = 0 /\ st.dep[c].locked = 0)
+C28CRDepositBalance == CRDepositBalance(s)
+\* what TLC checks on the model: the same with the deposits the named deviation
+\* ReleasedTwice (see CommitteePhase) released a second time put back
+C28CRDepositBalanceButKnown ==
+    CRDepositBalance([s EXCEPT !.dep = [c \in CRs |-> [@[c] EXCEPT !.locked = @ + s.over[c]]]])
 DepositSane == \A c \in CRs : s.dep[c].locked >= 0
 
 \* candidate votes never go negative, members are exactly MemberCount or none
